@@ -6,6 +6,7 @@ import (
 	"errors"
 	"fmt"
 	"io"
+	"math"
 	"math/rand"
 
 	"github.com/ulikunitz/lz"
@@ -140,6 +141,7 @@ type PState struct {
 	// re-based positions are used.
 	cursor int
 	stream []byte
+	other  lz.Parser
 }
 
 // Len returns the number of buffered bytes according to the model.
@@ -270,6 +272,54 @@ func NewParserFor(c gen.Cfg) (*PState, error) {
 	return st, nil
 }
 
+// driveOther uses a second parser instance of the same type (created on
+// first use with a slightly different geometry): data without repeats, with
+// repeats, Parse, Shrink, Reset.
+func (s *PState) driveOther(op *POp) {
+	if s.other == nil || op.A%7 == 0 {
+		c := s.Cfg
+		if c.Type == "PB" {
+			return
+		}
+		if c.BufferSize > 8 {
+			c.BufferSize -= op.A % 5
+			if c.ShrinkSize >= c.BufferSize {
+				c.ShrinkSize = c.BufferSize - 1
+			}
+		}
+		p, err := c.Lz().NewParser()
+		if err != nil {
+			return
+		}
+		s.other = p
+	}
+	q := s.other
+	buf := make([]byte, 16+op.B%200)
+	for i := range buf {
+		switch op.A % 3 {
+		case 0:
+			buf[i] = byte(i*37 + op.B) // no repeats
+		case 1:
+			buf[i] = 'a' + byte(i%3)
+		default:
+			buf[i] = 0
+		}
+	}
+	q.Write(buf)
+	var blk lz.Block
+	for i := 0; i < 1+op.A%4; i++ {
+		if _, err := q.Parse(&blk, op.A&1); err != nil {
+			break
+		}
+	}
+	if op.A%2 == 0 {
+		q.Shrink()
+	}
+	if op.A%5 == 0 {
+		q.Reset(nil)
+	}
+}
+
 func (s *PState) take(n int64) []byte {
 	if n < 0 {
 		n = 0
@@ -351,6 +401,10 @@ func RunHistory(st *PState, pc *PCase, obs PObserver) (class, msg string, at int
 					}
 				}
 			}
+		case "other":
+			// a different instance of the same parser type is created and
+			// used in between: instances must not share state
+			ev.Panic = call(func() { st.driveOther(op) })
 		case "shrink":
 			ev.Panic = call(func() { ev.Delta = p.Shrink() })
 		case "reset":
@@ -406,6 +460,15 @@ func RunHistory(st *PState, pc *PCase, obs PObserver) (class, msg string, at int
 				}
 			case 6:
 				x = st.W
+			case 8, 9, 10, 11:
+				// far outside, but congruent to a retained offset modulo
+				// 2^32 / 2^31, and the extremes of int64
+				base := st.Off
+				if st.Len() > 0 {
+					base += int64(op.C>>2) % st.Len()
+				}
+				deltas := []int64{1 << 32, -(1 << 32), 1 << 33, 1 << 31, -(1 << 31), 1 << 40, 1<<32 + st.Len(), math.MaxInt64 - base, math.MinInt64 - base, 1<<62 - base, -1 - base}
+				x = base + deltas[(op.C>>2)%len(deltas)]
 			default:
 				x = int64(op.B) - 3
 			}
@@ -499,9 +562,14 @@ func RunHistory(st *PState, pc *PCase, obs PObserver) (class, msg string, at int
 			st.Off += int64(ev.Delta)
 		case "reset":
 			st.Resets++
+			if ev.Err != nil && ev.ResetOversize && op.C&1 == 0 {
+				// a refused Reset must leave the parser as it was: the
+				// history goes on with the old stream
+				break
+			}
 			if ev.Err != nil {
-				// resynchronise: the state after a failed Reset is not
-				// specified
+				// resynchronise (the other half of the cases does not rely
+				// on the state after a failed Reset)
 				if err := p.Reset(nil); err != nil {
 					ev.Desync = "Reset(nil) failed"
 					break
@@ -532,6 +600,9 @@ func opString(op *POp) string {
 // HWeights are the relative weights of the operations.
 type HWeights struct {
 	Write, ReadFrom, Parse, ParseNTL, ParseNil, Shrink, Reset, ResetData, Probe int
+	// Other drives a second instance of the same parser type in between
+	// (default weight 2; set to -1 to disable).
+	Other int
 	// Faults enables injected reader errors in ReadFrom plans.
 	Faults bool
 }
@@ -598,7 +669,13 @@ func GenReadPlan(r *rand.Rand, faults bool) []RStep {
 
 // GenOps generates a history of n operations.
 func GenOps(r *rand.Rand, n int, w HWeights) []POp {
-	total := w.Write + w.ReadFrom + w.Parse + w.ParseNTL + w.ParseNil + w.Shrink + w.Reset + w.ResetData + w.Probe
+	if w.Other == 0 {
+		w.Other = 2
+	}
+	if w.Other < 0 {
+		w.Other = 0
+	}
+	total := w.Write + w.ReadFrom + w.Parse + w.ParseNTL + w.ParseNil + w.Shrink + w.Reset + w.ResetData + w.Probe + w.Other
 	ops := make([]POp, 0, n)
 	// a history starts with data
 	for len(ops) < n {
@@ -623,8 +700,15 @@ func GenOps(r *rand.Rand, n int, w HWeights) []POp {
 			op = POp{K: "reset", A: 0}
 		case k < w.Write+w.ReadFrom+w.Parse+w.ParseNTL+w.ParseNil+w.Shrink+w.Reset+w.ResetData:
 			op = POp{K: "reset", A: 1 + r.Intn(4), B: r.Intn(1 + r.Intn(400)), C: r.Intn(20)}
+		case k < w.Write+w.ReadFrom+w.Parse+w.ParseNTL+w.ParseNil+w.Shrink+w.Reset+w.ResetData+w.Probe:
+			op = POp{K: "probe", A: r.Intn(12), B: r.Intn(1 + r.Intn(12)), C: r.Intn(3) | r.Intn(1000)<<2}
+			if r.Intn(6) == 0 {
+				// extreme lengths (PeekAt only; ReadAt would need the memory)
+				op.C = 2 | r.Intn(1000)<<2
+				op.B = []int{math.MaxInt64, math.MaxInt64 - 1, math.MaxInt64 - r.Intn(400), 1 << 62, 1 << 32, 1<<31 - 1, 1 << 31}[r.Intn(7)]
+			}
 		default:
-			op = POp{K: "probe", A: r.Intn(8), B: r.Intn(1 + r.Intn(12)), C: r.Intn(3) | r.Intn(1000)<<2}
+			op = POp{K: "other", A: r.Intn(1000), B: r.Intn(1000)}
 		}
 		ops = append(ops, op)
 		// parse calls come in bursts so that buffers are drained
